@@ -132,6 +132,16 @@ pub(super) fn derive_schema(input: TokenStream) -> syn::Result<TokenStream> {
 
     fn schema_of_fields(fields: Fields, container_attrs: &ContainerAttributes) -> syn::Result<TokenStream> {
         match fields {
+            Fields::Named(FieldsNamed { brace_token:_, named }) if container_attrs.serde.transparent => {/* written as its only ( not skipped ) field */
+                let mut unnamed = Punctuated::new();
+                for f in named {
+                    if !FieldAttributes::new(&f.attrs)?.serde.skip {
+                        unnamed.push(syn::Field { ident: None, colon_token: None, ..f });
+                    }
+                }
+                schema_of_fields(Fields::Unnamed(FieldsUnnamed { paren_token: Default::default(), unnamed }), container_attrs)
+            }
+
             Fields::Named(FieldsNamed { brace_token:_, named }) => {/* object */
                 let mut properties = Vec::with_capacity(named.len());
                 for f in named {
